@@ -201,14 +201,15 @@ Definition define_value_codes : list str := [s "PREPROC_CONSTANT"].
 
 (* emission structure of CheckPreprocessorDefine.run on one `#define` line, over what it observes:
    is the statement a #define at all, name.isupper(), LPARENTHESIS after the name, and whether the value part is
-   rejected (the two PREPROC_CONSTANT sites are on exclusive paths: the first one returns) *)
+   rejected (the two PREPROC_CONSTANT sites are on exclusive paths: the first one returns).  The skip_define guard
+   stands between the name / function-like-macro checks and the value checks (Gen.Options.define_codes_before_guard /
+   define_codes_after_guard). *)
 Record define_obs := mkdobs { do_is_define : bool; do_name_upper : bool; do_lparen : bool; do_bad_value : bool }.
 Definition define_check (skip : bool) (o : define_obs) : list str :=
   if negb (do_is_define o) then []
-  else if skip then []
   else (if do_name_upper o then [] else [s "MACRO_NAME_CAPITAL"])
        ++ (if do_lparen o then [s "MACRO_FUNC_FORBIDDEN"] else [])
-       ++ (if do_bad_value o then [s "PREPROC_CONSTANT"] else []).
+       ++ (if skip then [] else if do_bad_value o then [s "PREPROC_CONSTANT"] else []).
 
 (* ------------------------------------------------------------------ the report *)
 Definition use_colors_of (a : args) : bool := negb (a_no_colors a).
@@ -280,14 +281,10 @@ Definition reviewed_skip_reads : list (string * string * string) :=
    ("norminette/rules/check_preprocessor_define.py", "CheckPreprocessorDefine.run", "context.preproc.skip_define: truth test guarding return")]%string.
 
 Definition reviewed_define_after_guard_calls : list string :=
-  ["context.check_token"; "context.new_error"; "context.peek_token"; "context.peek_token(i).value.isupper"; "context.skip_ws"]%string.
+  ["context.check_token"; "context.new_error"; "context.peek_token"; "context.skip_ws"]%string.
 
 Definition reviewed_silenced_code_mentions : list (string * string) :=
-  [("norminette/norm_error.py", "MACRO_FUNC_FORBIDDEN"); ("norminette/norm_error.py", "MACRO_NAME_CAPITAL");
-   ("norminette/norm_error.py", "PREPROC_CONSTANT");
-   ("norminette/rules/check_preprocessor_define.py", "MACRO_FUNC_FORBIDDEN");
-   ("norminette/rules/check_preprocessor_define.py", "MACRO_NAME_CAPITAL");
-   ("norminette/rules/check_preprocessor_define.py", "PREPROC_CONSTANT")]%string.
+  [("norminette/norm_error.py", "PREPROC_CONSTANT"); ("norminette/rules/check_preprocessor_define.py", "PREPROC_CONSTANT")]%string.
 
 (* computed diagnostic codes: none can spell one of the silenced codes (prefixes INVALID_ / FORBIDDEN_; the generic
    wrappers pass on what their callers give them) *)
